@@ -248,8 +248,15 @@ fn exec_case(emu: &mut Emu, c: &FCase) -> (Option<String>, &'static str) {
             }
         }
         if panic.is_none() {
-            emu.set_ccr(0);
+            // the run loop polls for interrupts before the next fetch: with the flags and the PC the step left
+            // behind (a PC outside the 24-bit space exists for exactly this one poll), I clear so that a pending
+            // request - the timer's, or one raised here for half of the cases - is accepted
+            let keep = emu.ccr() & 0x7f;
+            emu.set_ccr(keep);
             let cpu = &mut emu.cpu;
+            if c.elapse & 1 == 1 {
+                hooks::request_interrupt(cpu, 1 + (c.bus[0] ^ c.timer[1]) % 63);
+            }
             if let Err(p) = guarded(|| hooks::try_interrupt(cpu)) {
                 panic = Some(p);
                 kind = "Panic";
